@@ -48,6 +48,7 @@ def run(ctx: RuleContext):
     ctx.sub(check_shared_context, ctx, r)
     ctx.sub(check_rollback, ctx, r)
     ctx.sub(check_flatten_flag, ctx)
+    ctx.sub(check_union_kinds_agree, ctx)
 
 
 def _meta(ctx):
@@ -421,3 +422,59 @@ def check_flatten_flag(ctx):
                     "evaluating '?' labels) while jax is still deciding what the leaves are")
         else:
             ctx.ok("C08.7", f.qualname, "flatten-mode flag set before tree_flatten")
+
+
+# ------------------------------------------------------------------------ C08.8
+def check_union_kinds_agree(ctx):
+    """The leaf predicate is the vendored typeguard's `check_type`.  Every kind of union that jaxtyping itself treats
+    as a union when an annotation is built (`_array_types._union_types`: `typing.Union` and, on Python >= 3.10,
+    `types.UnionType` = `int | str`) must be dispatched to `check_union` there: `check_type` ends without raising
+    for a type object it does not recognise, so an unrecognised union makes `PyTree[A | B]` accept every leaf.
+    (Writer / reader agreement between two sibling tables of the package; defect F12.)"""
+    m = ctx.model
+    at = m.module("_array_types")
+    kinds = set()
+    for st in ast.walk(at.tree):
+        if isinstance(st, ast.Assign) and any(isinstance(t, ast.Name) and t.id == "_union_types" for t in st.targets):
+            for x in ast.walk(st.value):
+                if isinstance(x, (ast.Name, ast.Attribute)) and norm(x).split(".")[-1] in ("Union", "UnionType"):
+                    kinds.add(norm(x).split(".")[-1])
+        if isinstance(st, ast.Call) and isinstance(st.func, ast.Attribute) and st.func.attr in ("append", "extend", "add") and norm(st.func.value) == "_union_types":
+            for x in ast.walk(st):
+                if isinstance(x, (ast.Name, ast.Attribute)) and norm(x).split(".")[-1] in ("Union", "UnionType"):
+                    kinds.add(norm(x).split(".")[-1])
+    need(kinds, "C08.8: the kinds of unions jaxtyping recognises (_array_types._union_types) were not found")
+    tg = m.modules.get("_typeguard")
+    need(tg is not None, "C08.8: the vendored typeguard module was not found")
+    ct = m.functions.get("_typeguard.check_type")
+    need(ct is not None, "C08.8: _typeguard.check_type not found")
+    ctx.saw(ct)
+    # names bound (at module level) to types.UnionType
+    aliases = {"UnionType"}
+    for st in tg.tree.body:
+        if isinstance(st, ast.Assign) and any("UnionType" in norm(x) for x in ast.walk(st.value) if isinstance(x, (ast.Attribute, ast.Name, ast.Constant))):
+            for t in st.targets:
+                if isinstance(t, ast.Name):
+                    aliases.add(t.id)
+    handled = set()
+    for st in ast.walk(ct.node):
+        if isinstance(st, ast.If) and any(isinstance(c, ast.Call) and norm(c.func) == "check_union" for b in st.body for c in ast.walk(b)):
+            names = {norm(x).split(".")[-1] for x in ast.walk(st.test) if isinstance(x, (ast.Name, ast.Attribute))}
+            if names & aliases:
+                handled.add("UnionType")
+            if "Union" in names:
+                handled.add("Union")
+    # typing.Union[...] objects carry __origin__ = Union: dispatched through the origin table
+    for st in tg.tree.body:
+        if isinstance(st, ast.Assign) and any(isinstance(t, ast.Name) and t.id == "origin_type_checkers" for t in st.targets) and isinstance(st.value, ast.Dict):
+            for k, v in zip(st.value.keys, st.value.values):
+                if k is not None and norm(k).split(".")[-1] == "Union" and norm(v) == "check_union":
+                    handled.add("Union")
+    for k in sorted(kinds):
+        if k in handled:
+            ctx.ok("C08.8", ct.qualname, f"a `{k}` leaf type is dispatched to check_union")
+        else:
+            ctx.bad("C08.8", ct, ct.node, f"jaxtyping treats `{k}` as a union (_array_types._union_types) but the leaf predicate's check_type has no branch for it and ends "
+                    f"without raising: `PyTree[A | B]` accepts every leaf", construct=f"check_type: no dispatch for {k}")
+    ctx.counters["union_kinds"] = len(kinds)
+    ctx.floor("C08.8", "union_kinds", 2)
